@@ -129,6 +129,72 @@ def scan_file(relfile: str):
     return out
 
 
+HEAPQ_OPS = ("heappush", "heappop", "heapify", "heapreplace", "heappushpop")
+
+
+def _callee_name(call):
+    return call.func.id if isinstance(call.func, ast.Name) else getattr(call.func, "attr", None)
+
+
+def heap_sites(relfile: str):
+    """Heap discipline: a list that a function hands to heapq must keep the heap invariant, so inside that function it may only be
+    changed by heapq itself - any other rebinding or in-place change (after its initial `h = []` / `h = [x]`) must be followed at once
+    by `heapify(h)`.  A sufficient syntactic condition for 'heappop returns a minimum', decided on /repo's current AST; the unchanged tree
+    has no such site.  Returns the offending sites."""
+    path = os.path.join(REPO, relfile)
+    if not os.path.exists(path):
+        return []
+    mod = ast.parse(open(path).read())
+    out = []
+    for fn in [n for n in ast.walk(mod) if isinstance(n, ast.FunctionDef)]:
+        first_op = {}
+        for n in ast.walk(fn):
+            if isinstance(n, ast.Call) and _callee_name(n) in HEAPQ_OPS and n.args and isinstance(n.args[0], ast.Name):
+                h = n.args[0].id
+                first_op[h] = min(first_op.get(h, n.lineno), n.lineno)
+        if not first_op:
+            continue
+
+        def blocks(node):
+            for f in ("body", "orelse", "finalbody"):
+                b = getattr(node, f, None)
+                if isinstance(b, list) and b and isinstance(b[0], ast.stmt):
+                    yield b
+                    for st in b:
+                        if not isinstance(st, (ast.FunctionDef, ast.ClassDef)):
+                            yield from blocks(st)
+            for hd in getattr(node, "handlers", []):
+                yield from blocks(hd)
+
+        for b in blocks(fn):
+            for i, st in enumerate(b):
+                hit = None
+                if isinstance(st, (ast.Assign, ast.AnnAssign, ast.AugAssign)):
+                    for t in (st.targets if isinstance(st, ast.Assign) else [st.target]):
+                        base = t
+                        while isinstance(base, ast.Subscript):
+                            base = base.value
+                        if isinstance(base, ast.Name) and base.id in first_op:
+                            hit = (base.id, "rebinding / item assignment")
+                elif (isinstance(st, ast.Expr) and isinstance(st.value, ast.Call) and isinstance(st.value.func, ast.Attribute)
+                      and isinstance(st.value.func.value, ast.Name) and st.value.func.value.id in first_op
+                      and st.value.func.attr in ("append", "extend", "insert", "remove", "pop", "sort", "reverse")
+                      and not (st.value.func.attr == "pop" and not st.value.args)):  # dropping the last leaf keeps a heap a heap; so does clear()
+                    hit = (st.value.func.value.id, "." + st.value.func.attr + "()")
+                if hit is None:
+                    continue
+                h, kind = hit
+                nxt = b[i + 1] if i + 1 < len(b) else None
+                heapified = (isinstance(nxt, ast.Expr) and isinstance(nxt.value, ast.Call) and _callee_name(nxt.value) == "heapify"
+                             and nxt.value.args and isinstance(nxt.value.args[0], ast.Name) and nxt.value.args[0].id == h)
+                val = getattr(st, "value", None)
+                initial = (isinstance(st, (ast.Assign, ast.AnnAssign)) and isinstance(val, ast.List) and len(val.elts) <= 1
+                           and isinstance(st.targets[0] if isinstance(st, ast.Assign) else st.target, ast.Name))  # [] and [x] are heaps
+                if not heapified and not initial:
+                    out.append({"file": relfile, "func": fn.name, "heap": h, "kind": kind, "line": st.lineno})
+    return out
+
+
 def whitelist():
     p = os.path.join(VERIF, "specs", "frame_whitelist.json")
     return {tuple(x) for x in json.load(open(p))} if os.path.exists(p) else set()
@@ -150,5 +216,21 @@ def check(ctx, pid: str):
                     "detail": (f"{s['func']} writes persistent state ({s['kind']}: {s['target']}) that did not exist when the contract was "
                                f"attached: its answers may depend on earlier calls (cache / memo / reused helper object)"),
                     "solver_output": json.dumps(s)})
+    for f in anchored_files(pid):
+        try:
+            bad = heap_sites(f)
+        except SyntaxError:
+            bad = []
+        name = f"{pid}/{f}::*/heap-discipline"
+        if not bad:
+            if any(h in open(os.path.join(REPO, f)).read() for h in ("heappush", "heappop")):
+                ctx.obligations.append({"name": name, "status": "discharged", "solver": "syntactic", "time": 0.0, "kind": "heap-discipline"})
+        for b in bad:
+            ctx.obligations.append({
+                "name": f"{pid}/{f}::{b['func']}/heap-discipline:{b['heap']}", "status": "failed", "solver": "syntactic", "time": 0.0,
+                "kind": "heap-discipline", "counterexample": None,
+                "detail": (f"{b['func']} hands the list `{b['heap']}` to heapq but changes it at line {b['line']} by {b['kind']} without an immediate "
+                           f"heapify({b['heap']}): the heap invariant is lost, heappop need no longer return a minimum (best-first / label-setting order breaks)"),
+                "solver_output": json.dumps(b)})
     if f"frame:{pid}" not in ctx.functions:
         ctx.functions.append(f"frame condition over {', '.join(anchored_files(pid))}")
